@@ -172,20 +172,47 @@ func stepTimes(s Seq) (pts [][]int, tmax []int) {
 // Run executes seqs (one alert ID each, ids[i]) through ONE real task with
 // configuration cfg, the steps of all IDs interleaved round-robin, drains the
 // task and returns the observations per sequence and step.
-func (x *Exec) Run(cfg Cfg, seqs []Seq, ids []string) ([][]stepObs, chunkErrs) {
+func (x *Exec) Run(cfg Cfg, seqs []Seq, ids []string, cut int) ([][]stepObs, chunkErrs) {
 	x.n++
-	x.Tasks++
 	topic := fmt.Sprintf("c01topic%d", x.n)
-	taskID := fmt.Sprintf("c01task%d", x.n)
 	col := &collector{evs: map[string][]evRec{}}
 	x.env.Alert.RegisterAnonHandler(topic, col)
 	tt := kapacitor.StreamTask
 	if cfg.Batch {
 		tt = kapacitor.BatchTask
 	}
-	if _, err := x.env.StartTask(taskID, cfg.Script(topic), tt, rt.DefaultDBRP); err != nil {
-		rt.Fatalf("c01: start task for %v: %v\n%s", cfg, err, cfg.Script(topic))
+	var taskID string
+	var taskIDs []string
+	var collectors []kapacitor.BatchCollector
+	written := 0
+	start := func() {
+		x.Tasks++
+		taskID = fmt.Sprintf("c01task%d_%d", x.n, len(taskIDs))
+		taskIDs = append(taskIDs, taskID)
+		if _, err := x.env.StartTask(taskID, cfg.Script(topic), tt, rt.DefaultDBRP); err != nil {
+			rt.Fatalf("c01: start task for %v: %v\n%s", cfg, err, cfg.Script(topic))
+		}
+		if cfg.Batch {
+			collectors = x.env.TM.BatchCollectors(taskID)
+			if len(collectors) != 1 {
+				rt.Fatalf("c01: expected 1 batch collector, got %d", len(collectors))
+			}
+		}
 	}
+	// drain: close the source, every node drains and exits.  Stream ingest is
+	// asynchronous (WritePoints -> ingest edge -> fork), so first wait until the task
+	// has received every point (condition wait on the 'in' sink; a miss is exit 2).
+	drain := func() {
+		if cfg.Batch {
+			collectors[0].Close()
+		} else if !x.env.Diag.WaitCount("in", written, 120*time.Second) {
+			rt.Fatalf("c01: task received %d of %d points within the deadline", x.env.Diag.Count("in"), written)
+		}
+		// an error returned here is the task's own (a node failed); it is also reported
+		// through the diagnostics (StoppedTaskWithError) and recorded below
+		_ = x.env.TM.StopTask(taskID)
+	}
+	start()
 	maxLen := 0
 	times := make([][][]int, len(seqs))
 	tmaxs := make([][]int, len(seqs))
@@ -195,15 +222,13 @@ func (x *Exec) Run(cfg Cfg, seqs []Seq, ids []string) ([][]stepObs, chunkErrs) {
 		}
 		times[i], tmaxs[i] = stepTimes(s)
 	}
-	var collectors []kapacitor.BatchCollector
-	if cfg.Batch {
-		collectors = x.env.TM.BatchCollectors(taskID)
-		if len(collectors) != 1 {
-			rt.Fatalf("c01: expected 1 batch collector, got %d", len(collectors))
-		}
-	}
-	written := 0
 	for b := 0; b < maxLen; b++ {
+		if b == cut {
+			// task restart while the daemon keeps running: the topic (and with it the
+			// last event state of every ID) stays, the new task's alert node restores from it
+			drain()
+			start()
+		}
 		var wr []imodels.Point
 		for i, s := range seqs {
 			if b >= len(s) {
@@ -233,18 +258,9 @@ func (x *Exec) Run(cfg Cfg, seqs []Seq, ids []string) ([][]stepObs, chunkErrs) {
 			written += len(wr)
 		}
 	}
-	// end-of-trace drain: close the source, every node drains and exits; then the
-	// handler is deregistered, which drains its queue synchronously.  Stream ingest is
-	// asynchronous (WritePoints -> ingest edge -> fork), so first wait until the task
-	// has received every point (condition wait on the 'in' sink; a miss is exit 2).
-	if cfg.Batch {
-		collectors[0].Close()
-	} else if !x.env.Diag.WaitCount("in", written, 120*time.Second) {
-		rt.Fatalf("c01: task received %d of %d points within the deadline", x.env.Diag.Count("in"), written)
-	}
-	// an error returned here is the task's own (a node failed); it is also reported
-	// through the diagnostics (StoppedTaskWithError) and recorded below
-	_ = x.env.TM.StopTask(taskID)
+	// end-of-trace drain; then the handler is deregistered, which drains its queue
+	// synchronously.
+	drain()
 	x.env.Alert.DeregisterAnonHandler(topic, col)
 	x.env.Alert.DeleteTopic(topic)
 	// Errors reported by the task / its nodes are behaviour of the code under test:
@@ -259,8 +275,10 @@ func (x *Exec) Run(cfg Cfg, seqs []Seq, ids []string) ([][]stepObs, chunkErrs) {
 		}
 		rep.add(e.Msg + " | " + e.Err)
 	}
-	if msg, ok := x.env.Diag.StoppedWithError(taskID); ok && msg != "" {
-		rep.add("task stopped with error | " + msg)
+	for _, id := range taskIDs {
+		if msg, ok := x.env.Diag.StoppedWithError(id); ok && msg != "" {
+			rep.add("task stopped with error | " + msg)
+		}
 	}
 	x.NodeErrors += rep.N
 
@@ -337,7 +355,8 @@ func fwdOf(f models.Fields, tags models.Tags) fwdRec {
 
 // emit writes one trace (Reset + one S line per step) for a sequence.
 // nerr / nerrc: errors the task reported while the chunk this ID belongs to ran.
-func emit(t *rt.Trace, cfg Cfg, id string, s Seq, obs []stepObs, rep chunkErrs) {
+// cut >= 0: the task was restarted before step cut (a Restart line).
+func emit(t *rt.Trace, cfg Cfg, id string, s Seq, obs []stepObs, rep chunkErrs, cut int) {
 	errc := make([]any, len(rep.Classes))
 	for i, c := range rep.Classes {
 		errc[i] = c
@@ -345,6 +364,9 @@ func emit(t *rt.Trace, cfg Cfg, id string, s Seq, obs []stepObs, rep chunkErrs) 
 	t.Reset(rt.M{"setup": cfg.JSON(), "id": id, "nerr": rep.N, "nerrc": errc})
 	times, tmaxs := stepTimes(s)
 	for b, st := range s {
+		if b == cut {
+			t.Event("Restart", nil)
+		}
 		pts := make([]any, len(st.Pts))
 		for n, p := range st.Pts {
 			pts[n] = rt.M{"c": bools(p.C), "r": bools(p.R), "t": times[b][n]}
